@@ -57,20 +57,32 @@ def main():
             meta["violation_tags"] = {c: r["tags"] for c, r in res.get("checks", {}).items() if r["exit"] == 1}
         json.dump(meta, open(meta_path, "w"), indent=1)
         rows.append((name, meta.get("breaks", "?"), meta.get("what", ""), res))
-    print("| seeded change | targets | what | suite passes | killed by (quick tier) |")
-    print("|---|---|---|---|---|")
+    out = []
+    _print = out.append
+    _print("| seeded change | targets | what | suite passes | killed by (quick tier) |")
+    _print("|---|---|---|---|---|")
     for name, prop, what, res in rows:
         checks = res.get("checks", {})
         killed = [c for c in sorted(checks) if checks[c]["exit"] == 1]
         errs = [c for c in sorted(checks) if checks[c]["exit"] == 2]
         t = res.get("tests")
         suite = "yes" if t and t.get("exit") == 0 else ("n/a" if not t else "NO")
+        if name.startswith("orig-"):
+            suite = "n/a"
         own = prop in killed
         k = ", ".join("**%s**" % c if c == prop else c for c in killed) or "**none (survives)**"
         if errs:
             k += " (harness error: %s)" % ", ".join(errs)
         what = re.sub(r"\s+", " ", what)[:110]
-        print("| %s | %s | %s | %s | %s |" % (name, prop, what.replace("|", "/"), suite, k))
+        _print("| %s | %s | %s | %s | %s |" % (name, prop, what.replace("|", "/"), suite, k))
+    table = "\n".join(out)
+    print(table)
+    dpath = os.path.join(HERE, "DESIGN.md")
+    text = open(dpath).read()
+    b, e = "<!-- KILL-MATRIX:BEGIN -->", "<!-- KILL-MATRIX:END -->"
+    if b in text and e in text:
+        text = text[:text.index(b) + len(b)] + "\n" + table + "\n" + text[text.index(e):]
+        open(dpath, "w").write(text)
 
 
 if __name__ == "__main__":
